@@ -1,1 +1,957 @@
-fn main(){}
+//! C01 — deserialization and error rendering are total: no panic, abort or hang.
+//!
+//! Process-level oracle. Every execution is (deserialize through one entry
+//! point -> if Err: render the error in every public way) under `catch_unwind`
+//! with the thread's CPU time measured; stack / abort verdicts are taken in
+//! child processes with an 8 MiB main-thread stack, in the release profile and
+//! (thorough) in the dev profile; thorough also runs the same oracle under
+//! ASan, Miri, valgrind and the dev profile's overflow checks.
+
+mod child;
+mod genr;
+mod oracle;
+mod san;
+mod targets;
+
+use child::ChildClass;
+use genr::Patho;
+use oracle::{Bad, CPU_BOUND_S, CaseOut, SMALL_INPUT, STATS};
+use serde_json::{Value, json};
+use std::path::{Path, PathBuf};
+use std::sync::Mutex;
+use std::sync::atomic::{AtomicBool, AtomicU64, Ordering};
+use targets::{CROSS_TARGETS, Entry, Tgt};
+use vcore::obs::panic_site;
+use vcore::rng::{Rng, fnv_parts};
+use vcore::run::{Finish, Run, Tier, par_range, par_range_chunk};
+
+static FINISHING: AtomicBool = AtomicBool::new(false);
+
+/// Progress line on stderr (and a note in the evidence).
+fn progress(run: &Run, what: &str) {
+    eprintln!("c01: [{:7.1}s] {what}", run.elapsed_s());
+    run.note(format!("{what} at {:.1}s", run.elapsed_s()));
+}
+
+/// `C01_PARTS=1,3` restricts a run to some parts (debugging aid; the evidence then says so).
+fn part_on(n: u32) -> bool {
+    match std::env::var("C01_PARTS") {
+        Ok(v) if !v.trim().is_empty() => v.split(',').any(|x| x.trim() == n.to_string()),
+        _ => true,
+    }
+}
+
+/// `Run::finish` consumes the run; the stall monitor may have to finish from
+/// another thread while workers still hold `&Run`, so the run lives in a leaked
+/// box and is read out exactly once (the process exits inside `finish`).
+fn finish(run: &'static Run, f: Finish) -> ! {
+    if FINISHING.swap(true, Ordering::SeqCst) {
+        loop {
+            std::thread::park();
+        }
+    }
+    let r: Run = unsafe { std::ptr::read(run) };
+    r.finish(f)
+}
+
+fn text_preview(b: &[u8]) -> String {
+    String::from_utf8_lossy(&b[..b.len().min(600)]).into_owned()
+}
+
+/// JSON description of an input that lets `--replay` rebuild it exactly.
+fn input_json(input: &[u8], recipe: Option<&Patho>) -> Value {
+    match recipe {
+        Some(p) if input.len() > 128 * 1024 => {
+            json!({"recipe": {"family": p.family, "shape": p.shape, "param": p.param}, "len": input.len(), "preview": text_preview(input)})
+        }
+        _ => json!({"hex": genr::hex(input), "len": input.len(), "preview": text_preview(input)}),
+    }
+}
+
+fn rebuild_input(v: &Value) -> Option<Vec<u8>> {
+    if let Some(h) = v.get("hex").and_then(|h| h.as_str()) {
+        return Some(genr::unhex(h));
+    }
+    let r = v.get("recipe")?;
+    let shape = r.get("shape")?.as_str()?;
+    let param = r.get("param")?.as_u64()? as usize;
+    Some(match r.get("family")?.as_str()? {
+        "block-nest" => genr::block_nest(shape, param),
+        "flow-nest" => genr::flow_nest(shape, param),
+        "wide" => genr::wide(shape, param),
+        "docs" => genr::docs(param, shape),
+        "anchors" => genr::anchors(param, shape),
+        "scalar" => genr::big_scalar(shape, param),
+        "robotics-expr" => genr::robotics_expr(shape, param),
+        _ => return None,
+    })
+}
+
+fn case_json(mode: &str, profile: &str, t: &str, entry: Entry, opt: usize, input: &[u8], recipe: Option<&Patho>, origin: &str) -> Value {
+    json!({
+        "mode": mode, "profile": profile, "target": t, "entry": entry.name(), "opt": opt,
+        "opt_desc": targets::OPTVEC_DESC[opt.min(targets::N_OPTVEC - 1)],
+        "input": input_json(input, recipe), "origin": origin,
+    })
+}
+
+static REPORTED: Mutex<std::collections::BTreeMap<String, u64>> = Mutex::new(std::collections::BTreeMap::new());
+const MAX_REPORTS_PER_SIGNATURE: u64 = 5;
+
+/// `Run::violation` keeps every distinct case in a set it scans linearly; a
+/// defect that shows on tens of thousands of inputs must not turn that into a
+/// quadratic run. The first few cases per signature are reported, the rest counted.
+fn report(run: &Run, sig: &str, case: Value, detail: impl Into<String>) {
+    let n = {
+        let mut g = REPORTED.lock().unwrap();
+        let e = g.entry(sig.to_string()).or_insert(0);
+        *e += 1;
+        *e
+    };
+    if n <= MAX_REPORTS_PER_SIGNATURE {
+        run.violation(sig, case, detail);
+    } else {
+        run.count(&format!("further_cases_counted_not_reported/{sig}"), 1);
+    }
+}
+
+/// Turn what the in-process oracle saw into a verdict.
+fn judge(run: &Run, out: &CaseOut, t: &str, entry: Entry, opt: usize, input: &[u8], recipe: Option<&Patho>, origin: &str) {
+    let Some(bad) = &out.bad else { return };
+    let case = case_json("inproc", "release", t, entry, opt, input, recipe, origin);
+    match bad {
+        Bad::Panic(p) => report(run, &format!("C01:panic:{}", panic_site(p)), case, format!("panic instead of an error value: {p}")),
+        Bad::IterOverrun => report(run, 
+            "C01:iterator-does-not-end",
+            case,
+            format!("drained `read` iterator yielded >= {} items for {} input bytes", targets::iter_item_bound(input.len()), input.len()),
+        ),
+        Bad::Cpu(s) => report(run, 
+            "C01:cpu-bound",
+            case,
+            format!("call on a {}-byte input used {s:.1} s CPU (bound {CPU_BOUND_S} s for inputs <= {SMALL_INPUT} bytes)", input.len()),
+        ),
+        Bad::EofSpin { msg, twin } => match twin {
+            None => judge_spin(run, case, msg, t, entry, opt, input),
+            Some(tw) => {
+                run.count("bom_inputs_not_executed_in_process(their BOM-less twin span at EOF; the twin is the reported case)", 1);
+                let case = case_json("inproc", "release", t, entry, opt, tw, None, &format!("BOM-less twin of: {origin}"));
+                judge_spin(run, case, msg, t, entry, opt, tw)
+            }
+        },
+    }
+}
+
+// ------------------------------------------------------------------ suspected hangs at end of input
+
+enum Confirm {
+    Pending(Vec<(Value, String)>),
+    Confirmed(String),
+    NotConfirmed(String),
+}
+
+static SPIN: Mutex<std::collections::BTreeMap<&'static str, Confirm>> = Mutex::new(std::collections::BTreeMap::new());
+
+/// A reader-based call kept polling its reader at EOF until the reader's fuel
+/// ran out (the only way to get the worker thread back). That is a *suspected*
+/// hang; the verdict is taken once per class by re-running the first such case
+/// in a child process whose reader never gives up, against the CPU bound.
+fn judge_spin(run: &Run, case: Value, msg: &str, t: &str, entry: Entry, opt: usize, input: &[u8]) {
+    let class = oracle::spin_class(input, opt);
+    let sig = format!("C01:hang:reader-eof-spin:{class}");
+    run.count(&format!("suspected_hangs(reader fuel exhausted)/{class}"), 1);
+    {
+        let mut g = SPIN.lock().unwrap();
+        match g.get_mut(class) {
+            Some(Confirm::Pending(q)) => {
+                q.push((case, msg.to_string()));
+                return;
+            }
+            Some(Confirm::Confirmed(d)) => {
+                let d = d.clone();
+                drop(g);
+                report(run, &sig, case, format!("{msg}; class confirmed as a hang: {d}"));
+                return;
+            }
+            Some(Confirm::NotConfirmed(_)) => {
+                drop(g);
+                run.inconclusive("reader polled past its fuel at EOF, but the class was not confirmed as a hang in a child");
+                return;
+            }
+            None => {
+                g.insert(class, Confirm::Pending(Vec::new()));
+            }
+        }
+    }
+    // first case of this class: confirm in a child without the fuel limit
+    let exe = std::env::current_exe().expect("current_exe");
+    let limit = CPU_BOUND_S as u64 + 10;
+    let verdict = match child::run_case_x(&exe, entry, t, opt, input, limit, 3600, true) {
+        Ok((o, c)) if o.user_s + o.sys_s >= CPU_BOUND_S => Confirm::Confirmed(format!(
+            "child re-run of the first case ({} via {}, {} bytes) with an ordinary reader used {:.1} s CPU without returning (bound {CPU_BOUND_S} s) and was stopped by {:?} (maxrss {} KiB); {:?}",
+            t,
+            entry.name(),
+            input.len(),
+            o.user_s + o.sys_s,
+            o.signal.map(child::signal_name),
+            o.max_rss_kb,
+            matches!(c, ChildClass::Returned(_))
+        )),
+        Ok((o, c)) => Confirm::NotConfirmed(format!("child used {:.1}s CPU and ended as {c:?}", o.user_s + o.sys_s)),
+        Err(e) => Confirm::NotConfirmed(format!("child could not be started: {e}")),
+    };
+    let mut g = SPIN.lock().unwrap();
+    let queued = match g.insert(class, verdict) {
+        Some(Confirm::Pending(q)) => q,
+        _ => Vec::new(),
+    };
+    let v = g.get(class).unwrap();
+    let mut all = vec![(case, msg.to_string())];
+    all.extend(queued);
+    match v {
+        Confirm::Confirmed(d) => {
+            let d = d.clone();
+            drop(g);
+            for (c, m) in all {
+                report(run, &sig, c, format!("{m}; class confirmed as a hang: {d}"));
+            }
+        }
+        Confirm::NotConfirmed(d) => {
+            let d = d.clone();
+            drop(g);
+            run.note(format!("suspected hang class {class} not confirmed: {d}"));
+            for _ in all {
+                run.inconclusive("reader polled past its fuel at EOF, but the class was not confirmed as a hang in a child");
+            }
+        }
+        Confirm::Pending(_) => {}
+    }
+}
+
+/// Verdict for a child-process probe.
+fn judge_child(
+    run: &Run,
+    profile: &str,
+    family: &str,
+    o: &vcore::obs::ChildOutcome,
+    c: &ChildClass,
+    t: &str,
+    entry: Entry,
+    opt: usize,
+    input: &[u8],
+    recipe: Option<&Patho>,
+) {
+    let case = || case_json("child", profile, t, entry, opt, input, recipe, family);
+    let det = |what: &str| {
+        format!(
+            "{what}; child ended with signal {:?} exit {:?}, user {:.2}s sys {:.2}s maxrss {} KiB; stderr: {}",
+            o.signal.map(child::signal_name),
+            o.exit_code,
+            o.user_s,
+            o.sys_s,
+            o.max_rss_kb,
+            child::stderr_head(o)
+        )
+    };
+    match c {
+        ChildClass::Returned(v) => {
+            if let Some(p) = v.get("panic").and_then(|p| p.as_str()) {
+                let sig = if profile == "release" { format!("C01:panic:{}", panic_site(p)) } else { format!("C01:panic:{profile}:{}", panic_site(p)) };
+                report(run, &sig, case(), format!("panic instead of an error value ({profile} profile): {p}"));
+            } else if v.get("iter_overrun").and_then(|b| b.as_bool()).unwrap_or(false) {
+                report(run, "C01:iterator-does-not-end", case(), "drained iterator exceeded the item bound (child)");
+            } else if let Some(m) = v.get("eof_spin").and_then(|p| p.as_str()) {
+                judge_spin(run, case(), m, t, entry, opt, input);
+            }
+        }
+        ChildClass::StackOverflow => report(run, 
+            &format!("C01:stack-overflow:{profile}:{family}"),
+            case(),
+            det("8 MiB main-thread stack exhausted with the budget of this option vector in force"),
+        ),
+        ChildClass::AllocAbort => report(run, &format!("C01:alloc-abort:{profile}:{family}"), case(), det("allocation failure aborted the process")),
+        ChildClass::Signal(s) => {
+            report(run, &format!("C01:child-signal:{}:{profile}:{family}", child::signal_name(*s)), case(), det("process killed by a signal"))
+        }
+        ChildClass::AbnormalExit(code) => {
+            report(run, &format!("C01:child-exit-{code}:{profile}:{family}"), case(), det("process ended abnormally instead of returning"))
+        }
+        ChildClass::Inconclusive(why) => run.inconclusive(&format!("{why} [{profile}:{family}]")),
+    }
+}
+
+// ------------------------------------------------------------------ pathological inputs
+
+fn patho_list(tier: Tier) -> Vec<Patho> {
+    let mut v = Vec::new();
+    let block_depths: Vec<usize> = match tier {
+        Tier::Quick => vec![1990, 1999, 2000, 2001, 2010],
+        Tier::Thorough => (1990..=2010).collect(),
+    };
+    for shape in genr::BLOCK_SHAPES {
+        // nested explicit keys cost O(depth^3) CPU (16 s at depth 2000 in release): their own ladder
+        let ladder: Vec<usize> = if shape == "complex-key" { vec![100, 200, 400, 700, 1000, 2001, 2010] } else { block_depths.clone() };
+        for d in ladder {
+            v.push(Patho { family: "block-nest", shape, param: d, bytes: genr::block_nest(shape, d) });
+        }
+    }
+    for shape in genr::FLOW_SHAPES {
+        for d in 250..=260 {
+            v.push(Patho { family: "flow-nest", shape, param: d, bytes: genr::flow_nest(shape, d) });
+        }
+    }
+    for (shape, base) in [("wide-seq", 249_999usize), ("wide-map", 124_999), ("wide-flow-seq", 249_999), ("wide-seq-of-maps", 83_333)] {
+        for n in [base - 1, base, base + 1] {
+            v.push(Patho { family: "wide", shape, param: n, bytes: genr::wide(shape, n) });
+        }
+    }
+    for shape in ["docs-scalar", "docs-end-markers", "docs-map"] {
+        for n in [1023usize, 1024, 1025] {
+            v.push(Patho { family: "docs", shape, param: n, bytes: genr::docs(n, shape) });
+        }
+    }
+    for shape in ["anchors-only", "anchor-alias-pairs", "same-name-anchors", "one-anchor-many-aliases"] {
+        for n in [49_999usize, 50_000, 50_001] {
+            v.push(Patho { family: "anchors", shape, param: n, bytes: genr::anchors(n, shape) });
+        }
+    }
+    for shape in ["plain", "double-quoted", "literal-block", "unterminated-quote", "long-line-then-error", "long-key-type-error"] {
+        let n = 8 * 1024 * 1024;
+        v.push(Patho { family: "scalar", shape, param: n, bytes: genr::big_scalar(shape, n) });
+    }
+    for shape in ["unary-minus", "parens", "deg-calls", "sum-chain", "digits"] {
+        for n in [255usize, 256, 257, 60_000, 1_000_001] {
+            v.push(Patho { family: "robotics-expr", shape, param: n, bytes: genr::robotics_expr(shape, n) });
+        }
+    }
+    v
+}
+
+/// Inputs whose single call costs seconds of CPU: run on a thin grid only.
+fn heavy(p: &Patho) -> bool {
+    (p.shape == "complex-key" && p.param > 200 && p.param <= 2000) || p.shape == "anchored-map"
+}
+
+fn patho_opts(p: &Patho) -> &'static [usize] {
+    match p.family {
+        "robotics-expr" => &[4, 0],
+        "block-nest" | "flow-nest" => &[0, 3, 1],
+        _ => &[0, 3],
+    }
+}
+
+/// Targets that can follow a deep nest or large document all the way down; the
+/// others are run too (they stop at the first type mismatch).
+const DEEP_TARGETS: [&str; 9] = ["Val", "json", "Ignored", "DeepMap", "DeepSeq", "EnumNest", "RcNest", "MapValVal", "OptVal"];
+
+// ------------------------------------------------------------------ child probes
+
+struct Probe {
+    patho: usize,
+    target: &'static str,
+    entry: Entry,
+    opt: usize,
+}
+
+fn probe_plan(pathos: &[Patho], tier: Tier, profile: &str) -> Vec<Probe> {
+    let mut v = Vec::new();
+    for (i, p) in pathos.iter().enumerate() {
+        let (targets, entries): (&[&'static str], &[Entry]) = match p.family {
+            "block-nest" if p.shape == "complex-key" => {
+                let keep: &[usize] = if profile == "dev" { &[200, 400, 700] } else { &[200, 1000, 2001] };
+                if !keep.contains(&p.param) {
+                    continue;
+                }
+                if heavy(p) { (&["Val"], &[Entry::FromStr]) } else { (&["Val", "Ignored", "MapValVal"], &[Entry::FromStr, Entry::ReadIter]) }
+            }
+            "block-nest" if p.shape == "anchored-map" => {
+                // ~550 MiB per call at depth 2000 (every open anchor records every event): a thin grid
+                if ![1999, 2000, 2001].contains(&p.param) {
+                    continue;
+                }
+                (&["Val", "RcNest", "Ignored"], &[Entry::FromStr, Entry::ReaderC7])
+            }
+            "block-nest" => {
+                let keep = match tier {
+                    Tier::Quick => [1999, 2000, 2001].contains(&p.param),
+                    Tier::Thorough => [1990, 1999, 2000, 2001, 2010].contains(&p.param),
+                };
+                if !keep {
+                    continue;
+                }
+                (
+                    &["Val", "json", "Ignored", "DeepMap", "DeepSeq", "EnumNest", "RcNest", "Mixed"],
+                    &[Entry::FromStr, Entry::ReaderC7, Entry::ReadIter, Entry::FromMultiple],
+                )
+            }
+            "flow-nest" => {
+                if tier == Tier::Quick && ![254, 255, 256, 257].contains(&p.param) {
+                    continue;
+                }
+                (&["Val", "json", "Ignored", "DeepSeq", "DeepMap"], &[Entry::FromStr, Entry::ReaderC7])
+            }
+            "wide" | "docs" | "anchors" => (&["Val", "json", "Ignored", "VecString"], &[Entry::FromStr, Entry::FromMultiple, Entry::ReadIter]),
+            "scalar" => (&["Val", "String", "TupU8Str"], &[Entry::FromStr, Entry::ReaderC7]),
+            _ => (&["Val", "f64", "Mixed"], &[Entry::FromStr]),
+        };
+        // the dev profile is slow: one entry point less for the wide families
+        let entries: &[Entry] = if profile == "dev" && matches!(p.family, "wide" | "anchors" | "scalar") { &entries[..1] } else { entries };
+        for t in targets {
+            for e in entries {
+                let opt = if p.family == "robotics-expr" { 4 } else { 0 };
+                v.push(Probe { patho: i, target: t, entry: *e, opt });
+            }
+        }
+    }
+    v
+}
+
+struct DepthStat {
+    deepest_returned: std::collections::BTreeMap<String, usize>,
+    shallowest_overflow: std::collections::BTreeMap<String, usize>,
+}
+
+fn run_probes(run: &Run, exe: &Path, profile: &str, pathos: &[Patho], tier: Tier) {
+    let plan = probe_plan(pathos, tier, profile);
+    let stat = Mutex::new(DepthStat { deepest_returned: Default::default(), shallowest_overflow: Default::default() });
+    let n_ret = AtomicU64::new(0);
+    par_range_chunk(plan.len(), 1, |i| {
+        let pr = &plan[i];
+        let p = &pathos[pr.patho];
+        match child::run_case(exe, pr.entry, pr.target, pr.opt, &p.bytes, 300, 900) {
+            Err(e) => run.inconclusive(&format!("child spawn failed: {e}")),
+            Ok((o, c)) => {
+                run.eval();
+                run.count(&format!("child_probes/{profile}/{}", p.family), 1);
+                run.max(&format!("child_max_rss_kib/{profile}"), o.max_rss_kb.max(0) as u64);
+                judge_child(run, profile, p.family, &o, &c, pr.target, pr.entry, pr.opt, &p.bytes, Some(p));
+                let key = format!("{}:{}", p.family, p.shape);
+                let mut st = stat.lock().unwrap();
+                match c {
+                    ChildClass::Returned(v) => {
+                        n_ret.fetch_add(1, Ordering::Relaxed);
+                        if let Some(k) = v.get("kind").and_then(|k| k.as_str()) {
+                            run.observe(&format!("child_error_kinds/{profile}"), k);
+                        }
+                        let e = st.deepest_returned.entry(key).or_insert(0);
+                        *e = (*e).max(p.param);
+                        run.nontrivial(fnv_parts(&[b"child", profile.as_bytes(), &p.bytes, pr.target.as_bytes(), pr.entry.name().as_bytes()]));
+                    }
+                    ChildClass::StackOverflow => {
+                        let e = st.shallowest_overflow.entry(key).or_insert(usize::MAX);
+                        *e = (*e).min(p.param);
+                    }
+                    _ => {}
+                }
+            }
+        }
+    });
+    run.count(&format!("child_probes_returned/{profile}"), n_ret.load(Ordering::Relaxed));
+    let st = stat.lock().unwrap();
+    for (k, d) in &st.deepest_returned {
+        run.observe(&format!("deepest_param_returned_in_child/{profile}"), &format!("{k}={d}"));
+    }
+    for (k, d) in &st.shallowest_overflow {
+        run.observe(&format!("shallowest_param_overflowing_in_child/{profile}"), &format!("{k}={d}"));
+    }
+}
+
+/// Bisect, per block shape and deep target, the smallest depth at which the
+/// child overflows its 8 MiB stack under the default budget (only called for a
+/// profile in which the probes saw an overflow). Evidence only; the verdicts
+/// come from `run_probes`.
+fn bisect_overflow(run: &Run, exe: &Path, profile: &str) {
+    let combos: Vec<(&str, &str)> = vec![
+        ("seq-inline", "Val"),
+        ("seq-inline", "Ignored"),
+        ("seq-inline", "DeepSeq"),
+        ("map-lines", "Val"),
+        ("map-lines", "json"),
+        ("map-lines", "DeepMap"),
+        ("anchored-map", "RcNest"),
+        ("enum-payload", "EnumNest"),
+        ("complex-key", "Val"),
+        ("alternating", "Val"),
+    ];
+    par_range_chunk(combos.len(), 1, |i| {
+        let (shape, t) = combos[i];
+        let (mut lo, mut hi) = (1usize, 2000usize); // lo returns, hi overflows (checked below)
+        let at = |d: usize| -> Option<bool> {
+            let b = genr::block_nest(shape, d);
+            match child::run_case(exe, Entry::FromStr, t, 0, &b, 300, 900) {
+                Ok((_, ChildClass::StackOverflow)) => Some(true),
+                Ok((_, ChildClass::Returned(_))) => Some(false),
+                _ => None,
+            }
+        };
+        if at(hi) != Some(true) || at(lo) != Some(false) {
+            run.observe(&format!("overflow_threshold/{profile}"), &format!("{shape}->{t}: no overflow at depth 2000"));
+            return;
+        }
+        while hi - lo > 1 {
+            let mid = (lo + hi) / 2;
+            match at(mid) {
+                Some(true) => hi = mid,
+                Some(false) => lo = mid,
+                None => {
+                    run.inconclusive("bisect: child neither returned nor overflowed");
+                    return;
+                }
+            }
+        }
+        run.observe(
+            &format!("overflow_threshold/{profile}"),
+            &format!("{shape}->{t}: returns at depth {lo}, overflows 8 MiB at depth {hi} (~{} KiB of stack per level)", 8 * 1024 / hi),
+        );
+    });
+}
+
+// ------------------------------------------------------------------ replay
+
+fn replay(run: &'static Run, rep: &Value) -> ! {
+    let case = &rep["case"];
+    let input = rebuild_input(&case["input"]).unwrap_or_default();
+    let tname = case["target"].as_str().unwrap_or("Val");
+    let entry = case["entry"].as_str().and_then(Entry::from_name).unwrap_or(Entry::FromStr);
+    let opt = case["opt"].as_u64().unwrap_or(0) as usize;
+    let profile = case["profile"].as_str().unwrap_or("release");
+    let family = case["origin"].as_str().unwrap_or("replay").to_string();
+    let Some(t) = targets::by_name(tname) else {
+        eprintln!("harness error: unknown target {tname} in replay file");
+        std::process::exit(2);
+    };
+    run.eval();
+    match case["mode"].as_str().unwrap_or("inproc") {
+        "child" => {
+            let exe = match profile {
+                "dev" => match san::build_dev() {
+                    Ok(p) => p,
+                    Err(e) => {
+                        eprintln!("harness error: dev build failed: {e}");
+                        std::process::exit(2);
+                    }
+                },
+                _ => std::env::current_exe().expect("current_exe"),
+            };
+            match child::run_case(&exe, entry, t.name(), opt, &input, 300, 900) {
+                Ok((o, c)) => {
+                    println!("child: {c:?} {}", child::stderr_head(&o));
+                    judge_child(run, profile, &family, &o, &c, t.name(), entry, opt, &input, None);
+                }
+                Err(e) => {
+                    eprintln!("harness error: {e}");
+                    std::process::exit(2);
+                }
+            }
+        }
+        "sanitizer" => {
+            eprintln!("replay of a sanitizer report: re-run `./check C01 thorough` (the report is tied to an instrumented build); the in-process oracle is run on the input instead");
+            let out = std::thread::Builder::new().stack_size(1 << 30).spawn(move || oracle::exercise(&t, entry, opt, &input)).unwrap().join();
+            if let Ok(out) = out {
+                judge(run, &out, tname, entry, opt, &[], None, "replay (sanitizer report; input not part of the case)");
+            }
+        }
+        _ => {
+            let inp = input.clone();
+            let tn = t.name();
+            let out = std::thread::Builder::new()
+                .stack_size(1 << 30)
+                .spawn(move || oracle::exercise(&t, entry, opt, &inp))
+                .unwrap()
+                .join()
+                .expect("worker");
+            println!("in-process: oks={} errs={} kind={:?} cpu={:.3}s", out.oks, out.errs, out.first_kind, out.cpu_s);
+            judge(run, &out, tn, entry, opt, &input, None, "replay");
+        }
+    }
+    finish(run, Finish::new("replay"));
+}
+
+// ------------------------------------------------------------------ stall monitor
+
+fn start_monitor(run: &'static Run) {
+    std::thread::spawn(move || {
+        loop {
+            std::thread::sleep(std::time::Duration::from_millis(500));
+            for s in oracle::stall::scan() {
+                let small = s.input.len() <= SMALL_INPUT;
+                eprintln!(
+                    "c01: stall monitor: call has used {:.1}s CPU without returning: target {} entry {} opt {} input {} bytes: {:?}",
+                    s.cpu_s,
+                    s.target,
+                    s.entry.name(),
+                    s.opt,
+                    s.input.len(),
+                    text_preview(&s.input[..s.input.len().min(120)])
+                );
+                let exe = std::env::current_exe().expect("current_exe");
+                let cpu_limit = if small { CPU_BOUND_S as u64 + 10 } else { 900 };
+                let res = child::run_case_x(&exe, s.entry, s.target, s.opt, &s.input, cpu_limit, 3600, true);
+                let case = case_json("inproc", "release", s.target, s.entry, s.opt, &s.input, None, "stall-monitor");
+                let mut confirmed = false;
+                match res {
+                    Ok((o, _)) if small && o.user_s + o.sys_s >= CPU_BOUND_S => {
+                        confirmed = true;
+                        report(run, 
+                            "C01:cpu-bound",
+                            case,
+                            format!(
+                                "call on a {}-byte input had used {:.1} s CPU in-process without returning; the child re-run used {:.1} s CPU (bound {CPU_BOUND_S} s) and ended with signal {:?}",
+                                s.input.len(),
+                                s.cpu_s,
+                                o.user_s + o.sys_s,
+                                o.signal.map(child::signal_name)
+                            ),
+                        );
+                    }
+                    Ok((o, c)) => {
+                        run.inconclusive("in-process call stalled but the child re-run did not exceed the CPU bound");
+                        run.note(format!(
+                            "stalled call: target {} entry {} opt {} input {} bytes, in-process CPU {:.1}s; child {:?} cpu {:.1}s",
+                            s.target,
+                            s.entry.name(),
+                            s.opt,
+                            s.input.len(),
+                            s.cpu_s,
+                            c,
+                            o.user_s + o.sys_s
+                        ));
+                    }
+                    Err(e) => run.inconclusive(&format!("stalled call; child re-run failed to start: {e}")),
+                }
+                // the stuck worker will never hand its thread back: end the run here
+                let f = Finish::new("run ended by the stall monitor: a call did not return within its CPU limit");
+                let f = if confirmed { f } else { f.min_nontrivial(usize::MAX) };
+                finish(run, f);
+            }
+        }
+    });
+}
+
+// ------------------------------------------------------------------ main
+
+fn main() {
+    let args: Vec<String> = std::env::args().collect();
+    match args.get(1).map(|s| s.as_str()) {
+        Some("child") => child::child_main(&args[2..]),
+        Some("miri-shard") | Some("san-shard") => san::shard_main(&args[1..]),
+        _ => {}
+    }
+    let run: &'static Run = Box::leak(Box::new(Run::from_args("C01")));
+    if let Some(rep) = run.is_replay() {
+        replay(run, rep);
+    }
+    start_monitor(run);
+    let tier = run.tier;
+    let all_targets = targets::all();
+    let cross: Vec<Tgt> = CROSS_TARGETS.iter().map(|n| targets::by_name(n).expect("cross target")).collect();
+    for e in Entry::ALL {
+        run.observe("entry_points", e.name());
+    }
+    for t in &all_targets {
+        run.observe("targets", t.name());
+    }
+    for (i, d) in targets::OPTVEC_DESC.iter().enumerate() {
+        run.observe("option_vectors", &format!("{i}: {d}"));
+    }
+
+    // ---- 1. exhaustive token strings x entry points x option vectors 0..4 x the nine DESIGN targets
+    let max_len = tier.pick(3, 4);
+    let n_strings = genr::token_space(max_len);
+    let nt_calls = AtomicU64::new(0);
+    let exhaustive_one = |input: &[u8], origin: &str, count_nt: bool| {
+        let nt = count_nt && oracle::nontrivial_input(input);
+        let mut calls = 0u64;
+        for t in &cross {
+            for e in Entry::ALL {
+                for opt in 0..4 {
+                    let out = oracle::exercise(t, e, opt, input);
+                    if out.applicable {
+                        calls += 1;
+                        judge(run, &out, t.name(), e, opt, input, None, origin);
+                    }
+                }
+            }
+        }
+        run.evals(calls);
+        if nt {
+            run.nontrivial(fnv_parts(&[b"tok", input]));
+            nt_calls.fetch_add(calls, Ordering::Relaxed);
+        }
+    };
+    exhaustive_one(b"", "empty", false);
+    let n_strings_run = if part_on(1) { n_strings.min(std::env::var("C01_LIMIT").ok().and_then(|v| v.parse().ok()).unwrap_or(usize::MAX)) } else { 0 };
+    par_range(n_strings_run, |i| {
+        let s = genr::token_string(i);
+        exhaustive_one(s.as_bytes(), "token-exhaustive", true);
+        if i % 7919 == 0 {
+            run.sample(|| json!({"part": "token-exhaustive", "input": s}));
+        }
+    });
+    run.count("token_strings_exhaustive", n_strings as u64);
+    // sampled longer strings
+    let n_sampled = if part_on(1) { tier.pick(4_000, 60_000) } else { 0 };
+    par_range(n_sampled, |i| {
+        let mut rng = Rng::stream(run.seed, i as u64);
+        let len = if i % 4 == 3 { rng.range(6, 12) } else { 5 };
+        let s = genr::random_token_string(&mut rng, len);
+        exhaustive_one(s.as_bytes(), "token-sampled", true);
+        if i % 1999 == 0 {
+            run.sample(|| json!({"part": "token-sampled", "input": s}));
+        }
+    });
+    run.count("token_strings_sampled(len 5..12)", n_sampled as u64);
+    progress(run, "part 1 done");
+
+    // ---- 2. mutational corpus
+    let (harvested, nfiles) = genr::harvest(Path::new("/repo/tests"), 16 * 1024);
+    run.count("corpus/harvested_literals", harvested.len() as u64);
+    run.count("corpus/test_files_scanned", nfiles as u64);
+    if harvested.len() < 500 {
+        run.inconclusive("corpus harvest from /repo/tests found fewer than 500 string literals");
+    }
+    let mut corpus: Vec<Vec<u8>> = harvested;
+    corpus.extend(genr::BUILTIN.iter().map(|s| s.as_bytes().to_vec()));
+    let n_gen = tier.pick(1_500, 10_000);
+    corpus.extend(genr::generated_docs(run.seed, n_gen));
+    run.count("corpus/generated_docs", n_gen as u64);
+    // serializer output of what parses
+    {
+        let extra: Mutex<Vec<Vec<u8>>> = Mutex::new(Vec::new());
+        let take = corpus.len().min(tier.pick(1_500, 6_000));
+        par_range(take, |i| {
+            let Ok(s) = std::str::from_utf8(&corpus[i]) else { return };
+            let r = vcore::obs::catch(|| {
+                serde_saphyr::from_str::<serde_json::Value>(s).ok().and_then(|v| serde_saphyr::to_string(&v).ok())
+            });
+            if let Ok(Some(y)) = r
+                && y.len() <= 16 * 1024
+            {
+                extra.lock().unwrap().push(y.into_bytes());
+            }
+        });
+        let mut extra = extra.into_inner().unwrap();
+        extra.sort();
+        extra.dedup();
+        run.count("corpus/serializer_outputs", extra.len() as u64);
+        corpus.extend(extra);
+    }
+    run.count("corpus/total_documents", corpus.len() as u64);
+    // 2a. the corpus itself: every target, rotating entry point / option vector
+    par_range(if part_on(2) { corpus.len() } else { 0 }, |i| {
+        let d = &corpus[i];
+        let nt = oracle::nontrivial_input(d);
+        let mut calls = 0;
+        for (ti, t) in all_targets.iter().enumerate() {
+            for k in 0..2 {
+                let e = Entry::ALL[(i + ti + k * 4) % Entry::ALL.len()];
+                let opt = (i + ti * 3 + k) % targets::N_OPTVEC;
+                let out = oracle::exercise(t, e, opt, d);
+                if out.applicable {
+                    calls += 1;
+                    judge(run, &out, t.name(), e, opt, d, None, "corpus");
+                }
+            }
+        }
+        run.evals(calls);
+        if nt {
+            run.nontrivial(fnv_parts(&[b"corpus", d]));
+            nt_calls.fetch_add(calls, Ordering::Relaxed);
+        }
+    });
+    // 2b. mutants
+    let n_mut = if part_on(2) { tier.pick(60_000, 1_500_000) } else { 0 };
+    let mut_kinds: Vec<AtomicU64> = (0..genr::MUTATIONS.len()).map(|_| AtomicU64::new(0)).collect();
+    let invalid_utf8_inputs = AtomicU64::new(0);
+    par_range(n_mut, |i| {
+        let mut rng = Rng::stream(run.seed.wrapping_add(0x5EED), i as u64);
+        let a = rng.below(corpus.len());
+        let b = rng.below(corpus.len());
+        let mut d = corpus[a].clone();
+        let mut kinds = Vec::new();
+        for _ in 0..rng.range(1, 3) {
+            let k = rng.below(genr::MUTATIONS.len());
+            kinds.push(genr::MUTATIONS[k]);
+            mut_kinds[k].fetch_add(1, Ordering::Relaxed);
+            d = genr::mutate(&mut rng, k, &d, &corpus[b], SMALL_INPUT);
+        }
+        let is_utf8 = std::str::from_utf8(&d).is_ok();
+        if !is_utf8 {
+            invalid_utf8_inputs.fetch_add(1, Ordering::Relaxed);
+        }
+        let nt = oracle::nontrivial_input(&d);
+        let mut calls = 0;
+        for e in Entry::ALL {
+            if !is_utf8 && e.needs_str() {
+                continue;
+            }
+            for _ in 0..2 {
+                let t = &all_targets[rng.below(all_targets.len())];
+                let opt = rng.below(targets::N_OPTVEC);
+                let out = oracle::exercise(t, e, opt, &d);
+                if out.applicable {
+                    calls += 1;
+                    judge(run, &out, t.name(), e, opt, &d, None, &format!("mutant of corpus[{a}] via {kinds:?}"));
+                }
+            }
+        }
+        run.evals(calls);
+        if nt {
+            run.nontrivial(fnv_parts(&[b"mut", &d]));
+            nt_calls.fetch_add(calls, Ordering::Relaxed);
+        }
+        if i % 9973 == 0 {
+            run.sample(|| json!({"part": "mutant", "mutations": kinds, "input_preview": text_preview(&d), "valid_utf8": is_utf8}));
+        }
+    });
+    run.count("mutants", n_mut as u64);
+    run.count("mutants_invalid_utf8", invalid_utf8_inputs.load(Ordering::Relaxed));
+    for (k, c) in mut_kinds.iter().enumerate() {
+        run.count(&format!("mutation_applied/{}", genr::MUTATIONS[k]), c.load(Ordering::Relaxed));
+    }
+    progress(run, "part 2 done");
+
+    // ---- 3. pathological inputs, in-process (1 GiB worker stacks; stack verdicts are taken in children)
+    let pathos = patho_list(tier);
+    {
+        struct Job<'a> {
+            p: &'a Patho,
+            t: &'a Tgt,
+            e: Entry,
+            opt: usize,
+        }
+        let mut jobs = Vec::new();
+        for p in &pathos {
+            if heavy(p) {
+                for (tn, e) in [("Val", Entry::FromStr), ("Ignored", Entry::ReaderC7), ("RcNest", Entry::FromStr)] {
+                    if tn == "RcNest" && p.shape != "anchored-map" {
+                        continue;
+                    }
+                    let t = all_targets.iter().find(|t| t.name() == tn).expect("target");
+                    jobs.push(Job { p, t, e, opt: 0 });
+                }
+                continue;
+            }
+            for t in &all_targets {
+                let deep = DEEP_TARGETS.contains(&t.name());
+                let entries: &[Entry] = if deep {
+                    &[Entry::FromStr, Entry::FromSlice, Entry::ReaderC7, Entry::FromMultiple, Entry::ReadIter, Entry::WithDeReader]
+                } else {
+                    &[Entry::FromStr, Entry::ReadIter]
+                };
+                // the O(d^2)-byte shapes and the 8 MiB scalars are expensive: non-deep targets see a thinner grid
+                for &opt in patho_opts(p) {
+                    if !deep && opt != patho_opts(p)[0] {
+                        continue;
+                    }
+                    if opt == 1 && !(p.family == "flow-nest" || (p.family == "block-nest" && p.param == 2001)) {
+                        continue;
+                    }
+                    for &e in entries {
+                        if p.bytes.len() > (1 << 20) && !matches!(e, Entry::FromStr | Entry::ReaderC7 | Entry::ReadIter) {
+                            continue;
+                        }
+                        jobs.push(Job { p, t, e, opt });
+                    }
+                }
+            }
+        }
+        // cheap deterministic shuffle so that the expensive jobs are spread over the workers
+        let mut rng = Rng::new(7);
+        rng.shuffle(&mut jobs);
+        run.count("pathological_inputs", pathos.len() as u64);
+        if !part_on(3) {
+            jobs.clear();
+        }
+        par_range_chunk(jobs.len(), 1, |i| {
+            let j = &jobs[i];
+            let out = oracle::exercise(j.t, j.e, j.opt, &j.p.bytes);
+            if !out.applicable {
+                return;
+            }
+            run.eval();
+            judge(run, &out, j.t.name(), j.e, j.opt, &j.p.bytes, Some(j.p), j.p.family);
+            run.count(&format!("pathological_calls/{}", j.p.family), 1);
+            run.nontrivial(fnv_parts(&[b"patho", j.p.shape.as_bytes(), &j.p.param.to_le_bytes(), j.t.name().as_bytes(), j.e.name().as_bytes(), &[j.opt as u8]]));
+            if j.p.shape == "complex-key" && j.t.name() == "Val" && j.e == Entry::FromStr && j.opt == 0 {
+                run.max(&format!("cpu/complex_key_nest_ms/depth_{:04}", j.p.param), (out.cpu_s * 1e3) as u64);
+            }
+            if out.oks > 0 {
+                run.max(&format!("deepest_param_ok_inproc/{}:{}", j.p.family, j.p.shape), j.p.param as u64);
+            }
+            if let Some(k) = &out.first_kind {
+                run.observe(&format!("pathological_error_kinds/{}", j.p.family), k);
+            }
+        });
+    }
+    progress(run, "part 3 done");
+
+    // ---- 4. child-process probes, release profile
+    let exe = std::env::current_exe().expect("current_exe");
+    if part_on(4) {
+        run_probes(run, &exe, "release", &pathos, tier);
+    }
+    progress(run, "part 4 (release child probes) done");
+
+    // ---- 5. thorough: dev profile, sanitizers
+    let mut fin_tools: Vec<String> = Vec::new();
+    if tier == Tier::Thorough && part_on(5) {
+        match san::build_dev() {
+            Err(e) => {
+                eprintln!("harness error: dev-profile build of c01 failed (not a verdict):\n{e}");
+                std::process::exit(2);
+            }
+            Ok(dev_exe) => {
+                run_probes(run, &dev_exe, "dev", &pathos, tier);
+                bisect_overflow(run, &dev_exe, "dev");
+                progress(run, "dev child probes done");
+                san::run_sanitizers(run, &corpus, &dev_exe, &mut fin_tools);
+            }
+        }
+        bisect_overflow(run, &exe, "release");
+    }
+
+    // ---- evidence
+    let ld = |a: &AtomicU64| a.load(Ordering::Relaxed);
+    run.count("calls_in_process", ld(&STATS.calls));
+    run.count("ok_values_returned", ld(&STATS.oks));
+    run.count("errors_rendered(each in 9 ways)", ld(&STATS.errors_rendered));
+    run.count("rendered_bytes", ld(&STATS.rendered_bytes));
+    run.count("combinations_not_applicable(skipped)", ld(&STATS.not_applicable));
+    run.count("nontrivial_calls(input non-trivial x every combination run on it)", ld(&nt_calls));
+    let small_calls = ld(&STATS.small_calls).max(1);
+    let mean_ns = ld(&STATS.small_cpu_ns_sum) / small_calls;
+    run.count("cpu/small_input_calls", small_calls);
+    run.count("cpu/small_input_mean_ns", mean_ns);
+    run.count("cpu/small_input_max_us", ld(&STATS.small_cpu_ns_max) / 1000);
+    run.count("cpu/big_input_max_ms", ld(&STATS.big_cpu_ns_max) / 1_000_000);
+    run.count("cpu/bound_s", CPU_BOUND_S as u64);
+    run.note(format!(
+        "bounded progress: bound {CPU_BOUND_S} s CPU per call for inputs <= {SMALL_INPUT} bytes = {:.0}x the measured mean cost ({mean_ns} ns) and {:.0}x the measured worst case ({} us)",
+        CPU_BOUND_S * 1e9 / mean_ns.max(1) as f64,
+        CPU_BOUND_S * 1e9 / ld(&STATS.small_cpu_ns_max).max(1) as f64,
+        ld(&STATS.small_cpu_ns_max) / 1000
+    ));
+    for k in oracle::KINDS.lock().unwrap().iter() {
+        run.observe("error_kinds", k);
+    }
+
+    let scope = format!(
+        "all {n_strings} token strings of length 1..={max_len} over the 28-token alphabet (plus the empty input) x 9 entry points x option vectors 0..3 x 9 targets (combinations that do not exist — &str entry with a borrowing-only target etc. — skipped)"
+    );
+    let mut f = Finish::new(
+        "an input is non-trivial when the raw parser produced >= 1 content event or a scan error past offset 0 (checked with saphyr-parser directly); distinct_nontrivial counts distinct non-trivial inputs (each of which was run through its whole entry x option x target grid: see counter nontrivial_calls) plus distinct pathological (shape, size, target, entry, option) calls and child probes that returned",
+    )
+    .exhaustive(scope)
+    .assume("'always terminates' is restated as bounded progress: <= 20 s CPU per call for inputs <= 64 KiB, measured with the thread CPU clock; a wall-clock watchdog firing is inconclusive")
+    .assume("stack verdicts: child process with RLIMIT_STACK = 8 MiB, call made on the main thread, classified by the runtime's 'has overflowed its stack' abort")
+    .assume("a sanitizer that cannot be built or run here is counted as inconclusive, never as a violation")
+    .min_nontrivial(tier.pick(20_000, 400_000));
+    for t in fin_tools {
+        f = f.tool(t);
+    }
+    finish(run, f);
+}
+
+#[allow(dead_code)]
+fn _unused(_: PathBuf) {}
